@@ -38,6 +38,10 @@ Enumerated space
                    DISTINCT and with 1..2 hidden ORDER BY expressions
     table kinds    named targets (A / C / E over type-agnostic expressions) on every ledger table and on a
                    sub-query
+    attributes     un-aliased and aliased attribute / subscript targets on the structured columns of #postings
+                   (entry.date, position.units.number, entry.meta['memo'] ...), #accounts (open.date, close.date:
+                   two targets ending in the same attribute name), #prices, #balances; blanks / newlines /
+                   comments around the dots, letter case, redundant parentheses; 0..1 hidden ORDER BY attribute
 
 Scope / weakest readings
     * aliases are printed in lower case (the parser lower-cases identifiers; the property does not say which
@@ -211,12 +215,15 @@ class Builder:
         parens, style = STYLE_PLANS[(self.rot + k * 3) % len(STYLE_PLANS)]
         return unparse(e, parens, style, salt=self.rot + k, ends=False)
 
-    def target(self, k, kind, expr=None, column=None, alias=None):
+    def target(self, k, kind, expr=None, column=None, alias=None, raw=None):
+        """raw: hand-made source text of ``expr`` (for texts the printer refuses, e.g. the column `open`)."""
         start = self.pos
         self.pad(k)
         if kind == 'C':
             spelled = column.upper() if (self.rot + k) % 3 == 0 else column
             self.add(spelled)
+        elif raw is not None:
+            self.add(raw)
         else:
             self.add(self.expr_text(expr, k))
         if kind == 'A':
@@ -539,6 +546,79 @@ def table_kind_statements(conn, seed=0):
 
 
 # ---------------------------------------------------------------------------------------------------------
+# attribute / subscript targets on the structured columns of the ledger tables
+
+DOTS = ['.', ' . ', '.', '\n.\t', '/* c */.', ' ./**/', '.', ' ; eol\n. ', '\t.', '. ']
+
+STRUCTURED = [
+    # FROM, bare columns, attribute paths / subscripts (all exist on the pinned tree; checked by the run itself:
+    # a rejected statement is reported)
+    ('#postings', ['account', 'number'], [('entry', 'date'), ('position', 'units', 'number'), ('entry', 'flag'), ('position', 'units', 'currency'),
+                                          ('position', 'cost', 'date'), ('entry', 'narration'), ('meta', ['memo']), ('entry', 'meta', ['memo'])]),
+    ('#accounts', ['account'], [('open', 'date'), ('close', 'date'), ('open', 'meta'), ('open', 'currencies'), ('open', 'meta', ['filename'])]),
+    ('#prices', ['date', 'currency'], [('amount', 'number'), ('amount', 'currency')]),
+    ('#balances', ['account', 'date'], [('amount', 'number'), ('amount', 'currency'), ('discrepancy', 'number')]),
+]
+
+
+def path_ast(path):
+    e = col(path[0])
+    for step in path[1:]:
+        e = A.Subscript(e, step[0]) if isinstance(step, list) else A.Attribute(e, step)
+    return e
+
+
+def path_text(path, rot, parenthesise=False):
+    """Source text of an attribute path: blanks / newlines / comments around the dots, rotating letter case."""
+    out = [path[0].upper() if rot % 4 == 1 else path[0]]
+    for n, step in enumerate(path[1:]):
+        if isinstance(step, list):
+            q = '"' if (rot + n) % 2 else "'"
+            out.append(['[', ' [ ', '\t['][(rot + n) % 3] + q + step[0] + q + [']', ' ]'][(rot + n) % 2])
+        else:
+            out.append(DOTS[(rot * 3 + n) % len(DOTS)] + (step.upper() if rot % 4 == 2 else step))
+    text = ''.join(out)
+    return '(' + text + ')' if parenthesise else text
+
+
+def attribute_statements(seed=0, nrot=1):
+    """Un-aliased (E) and aliased (A) attribute / subscript targets mixed with bare columns (C), with 0..1 hidden
+    ORDER BY attribute; includes two targets that end in the same attribute name (open.date, close.date)."""
+    rot = seed * 5
+    for frm, columns, paths in STRUCTURED:
+        for kinds in ('E', 'EE', 'A', 'AE', 'EA', 'CE', 'EEC', 'EAEC', 'EEEE'):
+            for nh in (0, 1):
+                for r in range(nrot):
+                    rot += 1
+                    b = Builder(rot)
+                    b.add('SELECT')
+                    b.sep(0)
+                    n = 0
+                    for k, kind in enumerate(kinds):
+                        if k:
+                            b.add(',')
+                        if kind == 'C':
+                            b.target(k, 'C', column=columns[k % len(columns)])
+                            continue
+                        path = paths[(n + (rot if len(kinds) > 2 else 0)) % len(paths)]
+                        n += 1
+                        raw = path_text(path, rot + k, parenthesise=(rot + k) % 7 == 0)
+                        if kind == 'A':
+                            b.target(k, 'A', expr=path_ast(path), alias=ALIASES[(rot + k) % len(ALIASES)], raw=raw)
+                        else:
+                            b.target(k, 'E', expr=path_ast(path), raw=raw)
+                    b.sep(1)
+                    b.add('FROM')
+                    b.sep(2)
+                    b.add(frm)
+                    if nh:
+                        hidden = paths[(rot + 1) % len(paths)]
+                        hidden = hidden if not isinstance(hidden[-1], list) and hidden[-1] not in ('meta', 'currencies') else paths[0]
+                        b.add(' ORDER BY ' + path_text(hidden, rot + 9) + ' IS NULL')
+                    yield ('named', ('attribute', frm, kinds, nh), b.text(), b.targets, nh)
+
+
+# ---------------------------------------------------------------------------------------------------------
 # oracle
 
 _REPARSE = {}
@@ -659,6 +739,7 @@ def units(tier, seed=0):
     yield from duplicate_statements()
     yield from wildcard_statements(conn, thorough)
     yield from table_kind_statements(conn, seed)
+    yield from attribute_statements(seed, 3 if thorough else 1)
 
 
 _UNITS = None       # built once in the parent, inherited by the forked workers
